@@ -12,6 +12,10 @@
 //	         before every tick tells the harness that the tick body has run,
 //	         Close() waits for the loop (and so for all RTCP writes of the
 //	         tick), and the hook VerifGenReopen re-arms the interceptor.
+//	         Every tick runs against a writer plan (ops {2, mode, p, 0}): the
+//	         RTCP writer records each packet handed to it and then returns an
+//	         error for the Write calls the plan names (none / the p-th call of
+//	         the tick / all / those for MediaSSRC p / all from the p-th on).
 package main
 
 import (
@@ -370,6 +374,25 @@ type feed struct {
 
 var errRead = errors.New("read failed")
 
+var errWrite = errors.New("transient rtcp write failure")
+
+// writeFails is the writer plan of a tick (Model/NackSend.v, plan_writer): does the idx-th Write
+// call of the tick (0-based) return an error? forSSRC: the call carries a NACK for MediaSSRC p.
+func writeFails(mode, p, idx int64, forSSRC bool) bool {
+	switch mode {
+	case 1:
+		return idx == p
+	case 2:
+		return true
+	case 3:
+		return forSSRC
+	case 4:
+		return idx >= p
+	default:
+		return false
+	}
+}
+
 // runAPI drives the real interceptor. It returns ok=false when a cycle ran
 // more than one tick (the caller retries with a longer interval).
 func runAPI(in apiCase, interval time.Duration) (apiCase, bool) { //nolint:gocognit,cyclop
@@ -394,10 +417,13 @@ func runAPI(in apiCase, interval time.Duration) (apiCase, bool) { //nolint:gocog
 
 	var mu sync.Mutex
 	var writes []nackOut
+	var planMode, planP int64 // writer plan of the current cycle (see writeFails)
+	calls := int64(0)         // Write calls seen in the current cycle
 	sCh := make(chan struct{}, 64)
 	writer := interceptor.RTCPWriterFunc(func(pkts []rtcp.Packet, _ interceptor.Attributes) (int, error) {
 		mu.Lock()
 		defer mu.Unlock()
+		forSSRC := false
 		for _, p := range pkts {
 			nk, ok := p.(*rtcp.TransportLayerNack)
 			if !ok {
@@ -412,15 +438,23 @@ func runAPI(in apiCase, interval time.Duration) (apiCase, bool) { //nolint:gocog
 				}
 			}
 			writes = append(writes, o)
-			if o.SSRC == in.Sentinel {
-				select {
-				case sCh <- struct{}{}:
-				default:
-				}
+			if o.SSRC == planP {
+				forSSRC = true
 			}
 		}
+		// the tick body has run (toSend is complete before the first Write): any Write call, failing
+		// or not, tells the harness so; Close() then waits for the remaining Writes of the tick
+		select {
+		case sCh <- struct{}{}:
+		default:
+		}
+		idx := calls
+		calls++
+		if writeFails(planMode, planP, idx, forSSRC) {
+			return 0, errWrite
+		}
 
-		return 0, nil
+		return len(pkts), nil
 	})
 
 	bind := func(ssrc int64, withNack bool) {
@@ -468,6 +502,7 @@ func runAPI(in apiCase, interval time.Duration) (apiCase, bool) { //nolint:gocog
 		case 2:
 			mu.Lock()
 			writes = nil
+			planMode, planP, calls = a, b, 0
 			mu.Unlock()
 			for len(sCh) > 0 {
 				<-sCh
@@ -476,7 +511,7 @@ func runAPI(in apiCase, interval time.Duration) (apiCase, bool) { //nolint:gocog
 			if in.Sentinel >= 0 {
 				select {
 				case <-sCh:
-				case <-time.After(300 * time.Millisecond): // the tick did not emit the sentinel's NACK: recorded as is
+				case <-time.After(300 * time.Millisecond): // no Write at all (the sentinel always has a new gap): recorded as is
 				}
 			} else {
 				time.Sleep(3 * interval)
@@ -559,6 +594,50 @@ func (c apiCase) toCase(buckets []string) cq.Case {
 	}
 }
 
+// writerBuckets reports (after the run) whether a tick whose writer plan makes a Write fail had
+// NACKs of several streams to hand over, and whether a limit was configured for it - the shape in
+// which a failed Write for one stream could suppress or use up the request of another.
+func (c apiCase) writerBuckets() []string {
+	var bs []string
+	seen := map[string]bool{}
+	ti := 0
+	for _, op := range c.Ops {
+		if op[0] != 2 {
+			continue
+		}
+		if ti < len(c.Outs) && op[1] != 0 {
+			n, real := len(c.Outs[ti]), 0
+			failed := false
+			for i, p := range c.Outs[ti] {
+				if p.SSRC != c.Sentinel {
+					real++
+				}
+				// packets are sorted by SSRC here, the call order is the map order: count a tick as
+				// "failing" when the plan fails some call index < n or names an SSRC that is present
+				if writeFails(op[1], op[2], int64(i), p.SSRC == op[2]) {
+					failed = true
+				}
+			}
+			if failed && n >= 2 {
+				seen["writer-error-tick-with->=2-packets"] = true
+				if real >= 2 {
+					seen["writer-error-tick-with->=2-stream-nacks"] = true
+				}
+				if c.Max > 0 {
+					seen["writer-error-tick-with-limit"] = true
+				}
+			}
+		}
+		ti++
+	}
+	for k := range seen {
+		bs = append(bs, k)
+	}
+	sort.Strings(bs)
+
+	return bs
+}
+
 const sentinelSSRC = 999
 
 func genAPI(r *rand.Rand) (apiCase, []string) { //nolint:gocognit,cyclop
@@ -616,6 +695,40 @@ func genAPI(r *rand.Rand) (apiCase, []string) { //nolint:gocognit,cyclop
 		}
 	}
 	rounds := 4 + r.Intn(8)
+	// RTCP writer plan of every tick: in 4 of 10 cases the downstream writer returns errors
+	// (transient or persistent); the requests handed to it must be the same as with a healthy one
+	writerErrs := r.Intn(10) < 4
+	tickPlan := func() (int64, int64) {
+		if !writerErrs || r.Intn(10) < 3 {
+			return 0, 0
+		}
+		nPk := int64(nStreams + 1) // at most one packet per nack stream + the sentinel
+		switch r.Intn(6) {
+		case 0, 1:
+			bk["writer-error:first-write"] = true
+
+			return 1, 0
+		case 2:
+			bk["writer-error:kth-write"] = true
+
+			return 1, 1 + r.Int63n(nPk)
+		case 3:
+			bk["writer-error:every-write"] = true
+
+			return 2, 0
+		case 4:
+			bk["writer-error:writes-of-one-ssrc"] = true
+			if r.Intn(3) == 0 {
+				return 3, sentinelSSRC
+			}
+
+			return 3, streams[r.Intn(len(streams))].ssrc
+		default:
+			bk["writer-error:from-kth-write-on"] = true
+
+			return 4, r.Int63n(nPk)
+		}
+	}
 	fullCycleAt := -1
 	if c.Max > 0 && r.Intn(12) == 0 {
 		fullCycleAt = 1 + r.Intn(rounds-1)
@@ -678,7 +791,8 @@ func genAPI(r *rand.Rand) (apiCase, []string) { //nolint:gocognit,cyclop
 			sentSeq += 2
 			add(0, sentinelSSRC, sentSeq&0xFFFF, 0)
 		}
-		add(2, 0, 0, 0)
+		pm, pp := tickPlan()
+		add(2, pm, pp, 0)
 	}
 	bs := make([]string, 0, len(bk))
 	for k := range bk {
@@ -944,7 +1058,7 @@ func main() {
 	wg.Wait()
 	for i := range jobs {
 		as := apis[i%nAPISets]
-		as.Cases = append(as.Cases, res[i].toCase(jobs[i].bk))
+		as.Cases = append(as.Cases, res[i].toCase(append(jobs[i].bk, res[i].writerBuckets()...)))
 	}
 	extra := map[string]interface{}{"api_tick_method": "one loop iteration per BindRTCPWriter/Close cycle, sentinel stream marks the tick"}
 	if o.Tier == "thorough" && o.N == 0 {
